@@ -7,7 +7,7 @@ import z3
 
 from . import sorts as S
 from .sorts import Node, Ty, I, B, R
-from .symex import (Unsupported, PathAbort, PyRaise, ExcVal, ExcClass, Obj, ClassRef, ModuleRef,
+from .symex import (GenObj, Unsupported, PathAbort, PyRaise, ExcVal, ExcClass, Obj, ClassRef, ModuleRef,
                     FuncVal, Builtin, ContentView, PayloadView, ArgsView, QVars, ZSetTuple,
                     SetVal, DictVal, Opaque, FloatVal, Frame, SeqList, PrefList,
                     is_z3, is_node, is_ty, is_sym_int, is_sym_bool, is_sym_real, is_sym_str,
@@ -305,6 +305,9 @@ def binop(world, ex, opname, a, b):
             return z3.Concat([a] * b) if b > 1 else (a if b == 1 else "")
         if isinstance(b, int):
             return a * b
+        h = world.config.get("str_repeat")
+        if h is not None:
+            return h(ex, a, b)
         return _repeat_str(world, ex, a, b)
     # sequences
     if isinstance(a, SeqList) and opname == "+":
@@ -841,6 +844,8 @@ def iterate(world, ex, v):
         return list(v)
     if isinstance(v, Generator):
         return v.items(ex)
+    if isinstance(v, GenObj):
+        return ex.gen_items(v)
     if is_sym_str(v):
         n = concretize_int(world, ex, z3.Length(v), 0, 16, "str-len-bound")
         return [z3.SubString(v, i, 1) for i in range(n)]
@@ -1244,6 +1249,9 @@ def to_str_value(world, ex, v):
     if isinstance(v, int):
         return str(v)
     if is_sym_int(v):
+        h = world.config.get("str_int")
+        if h is not None:
+            return h(ex, v)          # printers: the decimal spelling as an opaque, tracked piece of text
         used("str(int)")
         return z3.If(v >= 0, z3.IntToStr(v), z3.Concat(z3.StringVal("-"), z3.IntToStr(-v)))
     if is_sym_bool(v):
